@@ -9,6 +9,7 @@ import (
 	"io"
 	"net"
 	"runtime"
+	"sort"
 	"strconv"
 	"strings"
 	"sync"
@@ -100,8 +101,9 @@ func builtinOthers() []other {
 }
 
 type scenario struct {
-	tee      int // 0 off, 1 TeeIn, 2 TeeOut, 3 both
-	ck       int // kind of connection the session is created on (see connKinds)
+	tee      int    // 0 off, 1 TeeIn, 2 TeeOut, 3 both
+	user     string // localpart of the own address (default "user"); histories over one negotiator use distinct ones
+	ck       int    // kind of connection the session is created on (see connKinds)
 	explicit bool
 	state0   uint8
 	domain   int // index of the domainpart of the session's OWN address (origin)
@@ -270,7 +272,11 @@ func (sc *scenario) originStr() string {
 	if sc.state0&uint8(xmpp.S2S) != 0 {
 		return domains[sc.domain]
 	}
-	return "user@" + domains[sc.domain]
+	u := sc.user
+	if u == "" {
+		u = "user"
+	}
+	return u + "@" + domains[sc.domain]
 }
 func (sc *scenario) origin() jid.JID   { return jid.MustParse(sc.originStr()) }
 func (sc *scenario) location() jid.JID { return jid.MustParse(domains[sc.remote]) }
@@ -370,6 +376,8 @@ type pick struct {
 }
 
 type result struct {
+	advIDs   []int
+	adv      string   // A<ids>: what Session.Feature reports as advertised after the call
 	hello    string   // N<name> when a ClientHello left during NewSession, else ""
 	clearEv  []string // what the client wrote in clear text, classified
 	protEv   []string // what it wrote inside the TLS layer
@@ -575,13 +583,13 @@ func (c *ctx) conn(sc scenario, w *wire) io.ReadWriter {
 // exec runs one scenario on the real code.  base is the StartTLS feature value
 // to use (nil: a fresh one).
 func (c *ctx) exec(sc scenario, base *xmpp.StreamFeature) (res result) {
-	res = c.exec1(sc, base)
+	res = c.exec1(sc, base, nil)
 	if res.stalled {
 		// A watchdog expired.  Keep the goroutine dump of the first such event for the
 		// evidence and try once more: only a stall that happens again is an observation
 		// (an overloaded machine must not look like a session that hangs).
 		c.r.Hist["watchdog-expired-then-retried"]++
-		again := c.exec1(sc, base)
+		again := c.exec1(sc, base, nil)
 		if !again.stalled {
 			return again
 		}
@@ -589,7 +597,40 @@ func (c *ctx) exec(sc scenario, base *xmpp.StreamFeature) (res result) {
 	return res
 }
 
-func (c *ctx) exec1(sc scenario, base *xmpp.StreamFeature) (res result) {
+// sharedNeg is ONE value returned by xmpp.NewNegotiator that several sessions are negotiated
+// with.  Its config function hands every session its own features (looked up by the session's
+// own address), so the per-session instrumentation stays apart while whatever state the
+// negotiator value itself keeps is shared.
+type sharedNeg struct {
+	mu     sync.Mutex
+	feats  map[string][]xmpp.StreamFeature
+	tee    int
+	teeIn  *common.SafeBuffer
+	teeOut *common.SafeBuffer
+	neg    xmpp.Negotiator
+}
+
+func newSharedNeg(tee int) *sharedNeg {
+	sn := &sharedNeg{feats: map[string][]xmpp.StreamFeature{}, tee: tee, teeIn: &common.SafeBuffer{}, teeOut: &common.SafeBuffer{}}
+	sn.neg = xmpp.NewNegotiator(func(s *xmpp.Session, _ *xmpp.StreamConfig) xmpp.StreamConfig {
+		var cfg xmpp.StreamConfig
+		if s != nil {
+			sn.mu.Lock()
+			cfg.Features = sn.feats[s.LocalAddr().String()]
+			sn.mu.Unlock()
+		}
+		if sn.tee&1 != 0 {
+			cfg.TeeIn = sn.teeIn
+		}
+		if sn.tee&2 != 0 {
+			cfg.TeeOut = sn.teeOut
+		}
+		return cfg
+	})
+	return sn
+}
+
+func (c *ctx) exec1(sc scenario, base *xmpp.StreamFeature, shared *sharedNeg) (res result) {
 	// an XML declaration is only legal at the very start of a document: a header that
 	// follows white space is spelled without one
 	prevW := false
@@ -732,6 +773,12 @@ func (c *ctx) exec1(sc scenario, base *xmpp.StreamFeature) (res result) {
 		}
 		return cfg
 	})
+	if shared != nil {
+		shared.mu.Lock()
+		shared.feats[sc.originStr()] = features
+		shared.mu.Unlock()
+		neg, teeIn, teeOut = shared.neg, shared.teeIn, shared.teeOut
+	}
 
 	var s *xmpp.Session
 	var err error
@@ -816,5 +863,65 @@ func (c *ctx) exec1(sc scenario, base *xmpp.StreamFeature) (res result) {
 	res.prot = protBytes
 	res.protEv = classify(protBytes)
 	res.teeIn, res.teeOut = teeIn.Bytes(), teeOut.Bytes()
+	// what Session.Feature reports as advertised, for every namespace that occurs in a list
+	// of the script
+	res.adv = "A-"
+	if ok && res.panicked == "" && s != nil {
+		seen := map[int]bool{}
+		var ids []int
+		note := func(u unit) {
+			if u.kind != 'L' {
+				return
+			}
+			for _, it := range u.items {
+				if !seen[it.id] {
+					seen[it.id] = true
+					ids = append(ids, it.id)
+				}
+			}
+		}
+		for _, seg := range sc.clear {
+			for _, u := range seg {
+				note(u)
+			}
+		}
+		for _, p := range sc.prot {
+			if !p.junk {
+				note(p.u)
+			}
+		}
+		sort.Ints(ids)
+		var rep []string
+		for _, id := range ids {
+			if _, advertised := s.Feature(sc.namespace(id)); advertised {
+				rep = append(rep, strconv.Itoa(id))
+				res.advIDs = append(res.advIDs, id)
+			}
+		}
+		if len(rep) > 0 {
+			res.adv = "A" + strings.Join(rep, "+")
+		}
+	}
 	return res
+}
+
+// namespace of the feature element the script writes for item id.
+func (sc *scenario) namespace(id int) string {
+	configured := false
+	for _, o := range sc.others {
+		if o.id == id {
+			configured = true
+		}
+	}
+	switch {
+	case id == 0:
+		return nsTLS
+	case id == idSASL && configured:
+		return "urn:ietf:params:xml:ns:xmpp-sasl"
+	case id == idBind && configured:
+		return "urn:ietf:params:xml:ns:xmpp-bind"
+	case configured:
+		return fmt.Sprintf("urn:x:f%d", id)
+	}
+	return fmt.Sprintf("urn:x:u%d", id)
 }
